@@ -280,6 +280,24 @@ def h_collect_after_change(how):
     return h
 
 
+def h_update_rejects(I):
+    """Config.update() after the fields were listed once: a value outside the declared alternatives is rejected, one inside is used"""
+    from andes.core.common import Config
+    cfg = Config('TDS')
+    cfg.add(fixt=1, tstep=0.1)
+    cfg.add_extra('_alt', fixt=(0, 1), tstep='float')
+    cfg.as_dict()
+    val = I.real('new_value')
+    raised = False
+    try:
+        cfg.update(fixt=val)
+    except ValueError:
+        raised = True
+    legal = OR(EQ(val, 0, tol=0.0), EQ(val, 1, tol=0.0))
+    return [('update() raises <=> the value is outside the declared alternatives', IFF(raised, NOT(legal))),
+            ('an accepted value is the value in effect', raised or EQ(cfg.fixt, val, tol=0.0))]
+
+
 def job(spec):
     import logging
     logging.getLogger('andes').setLevel(60)
@@ -290,6 +308,8 @@ def job(spec):
         return H.run(f'config precedence [option section in file={arg[0]}, two options={arg[1]}]', h_precedence(*arg), region=lambda v, c: c)
     if kind == 'two':
         return H.run('two systems from one rc file', h_two_systems, region=lambda v, c: c)
+    if kind == 'updrej':
+        return H.run('Config.update with a value outside the alternatives', h_update_rejects, region=lambda v, c: c)
     if kind == 'collect':
         return H.run(f'collect_config after a change by {arg}', h_collect_after_change(arg), region=lambda v, c: c)
     if kind == 'alt':
@@ -316,7 +336,7 @@ def main():
               'float(repr(x)) == x is trusted (Python)', 'language model of int()/float() restricted to ASCII')
     ck.out('reading/writing the rc file itself (file I/O)', 'values of ~400 fields are covered structurally, not one by one')
     jobs = [('ch', j) for j in crosshair_jobs(to)]
-    jobs += [('prec', (a, b)) for a in (True, False) for b in (True, False)] + [('two', 0)] + [('collect', h) for h in ('attribute', 'update')]
+    jobs += [('prec', (a, b)) for a in (True, False) for b in (True, False)] + [('two', 0)] + [('collect', h) for h in ('attribute', 'update')] + [('updrej', 0)]
     alts = []
     for owner, cfg in all_configs():
         for key, alt in cfg._alt.items():
